@@ -1,6 +1,6 @@
 (** Protocol operations for C02 (see Lib/Val.v). *)
 From Coq Require Import ZArith List Bool String.
-From Low Require Import Lib.Bits Lib.BitSeq Lib.Val Model.Rank Model.Select Spec.RankSpec Spec.SelectSpec.
+From Low Require Import Lib.Bits Lib.BitSeq Lib.Val Model.Rank Model.Select Model.BitmapNext Model.BitmapOf Spec.RankSpec Spec.SelectSpec Spec.SelectRankSpec.
 Import ListNotations.
 Open Scope string_scope.
 Open Scope Z_scope.
@@ -11,7 +11,7 @@ Definition c02_in_range (ws : list Z) (i : Z) : bool :=
 
 Definition c02_pair (p : Z * Z) : val := VL [VZ (fst p); VZ (snd p)].
 
-Definition ops_C02 : list opdef := [
+Definition ops_C02_base : list opdef := [
   {| op_name := "bitmap.IndexSelect32";
      op_run := fun a => match a with
        | [ws] => match as_zs ws with
@@ -104,3 +104,284 @@ Definition ops_C02 : list opdef := [
            | Some ws, Some i => c02_pair (spec_Select ws i) | _, _ => VBad end
        | _ => VBad end) |}
 ].
+
+(** * widened: the library's select composed with the library's rank (C01's functions), both ways *)
+
+(** domain of "select (rank p)": p inside the bitmap and some 1-bit at or after p *)
+Definition c02_from_in_range (ws : list Z) (p : Z) : bool :=
+  (0 <=? p) && (p <? 64 * zlen ws) && has_one_from ws p.
+
+Definition c02_rank_of_select (sel : option (Z * Z)) (rank : Z -> option (Z * Z)) : val :=
+  match sel with
+  | Some (a, _) => match rank a with Some p => c02_pair p | None => VPanic end
+  | None => VPanic
+  end.
+
+Definition c02_select_of_rank (rank : option (Z * Z)) (sel : Z -> option (Z * Z)) : val :=
+  match rank with
+  | Some (r, _) => match sel r with Some p => c02_pair p | None => VPanic end
+  | None => VPanic
+  end.
+
+Definition ops_C02_widen : list opdef := [
+  (* Rank64(words, IndexRank64(words), a) where (a, _) = Select32(words, IndexSelect32(words), i): must be (i, 1) *)
+  {| op_name := "bitmap.Rank64/Select32";
+     op_run := fun a => match a with
+       | [ws; i] => match as_zs ws, as_z i with
+           | Some ws, Some i =>
+               if c02_in_range ws i then
+                 match IndexSelect32 ws with
+                 | Some sidx => c02_rank_of_select (Select32 ws sidx i) (Rank64 ws (IndexRank64 ws false))
+                 | None => VPanic
+                 end
+               else VBad
+           | _, _ => VBad end
+       | _ => VBad end;
+     op_spec := fun_spec (fun a => match a with
+       | [_; i] => match as_z i with Some i => VL [VZ i; VZ 1] | None => VBad end
+       | _ => VBad end) |};
+  (* Rank128(words, IndexRank128(words), a) where (a, _) = Select32R64(...): must be (i, 1) *)
+  {| op_name := "bitmap.Rank128/Select32R64";
+     op_run := fun a => match a with
+       | [ws; i] => match as_zs ws, as_z i with
+           | Some ws, Some i =>
+               if c02_in_range ws i then
+                 match IndexSelect32R64 ws with
+                 | Some (sidx, ridx) =>
+                     c02_rank_of_select (Select32R64 ws sidx ridx i) (Rank128 ws (IndexRank128 ws))
+                 | None => VPanic
+                 end
+               else VBad
+           | _, _ => VBad end
+       | _ => VBad end;
+     op_spec := fun_spec (fun a => match a with
+       | [_; i] => match as_z i with Some i => VL [VZ i; VZ 1] | None => VBad end
+       | _ => VBad end) |};
+  (* Select32(words, idx, r) where (r, _) = Rank64(words, IndexRank64(words, true), p):
+     must be (first 1-bit at or after p, the 1-bit after it or 64*len) *)
+  {| op_name := "bitmap.Select32/Rank64";
+     op_run := fun a => match a with
+       | [ws; p] => match as_zs ws, as_z p with
+           | Some ws, Some p =>
+               if c02_from_in_range ws p then
+                 match IndexSelect32 ws with
+                 | Some sidx => c02_select_of_rank (Rank64 ws (IndexRank64 ws true) p) (Select32 ws sidx)
+                 | None => VPanic
+                 end
+               else VBad
+           | _, _ => VBad end
+       | _ => VBad end;
+     op_spec := fun_spec (fun a => match a with
+       | [ws; p] => match as_zs ws, as_z p with
+           | Some ws, Some p => c02_pair (spec_SelectFrom ws p) | _, _ => VBad end
+       | _ => VBad end) |};
+  {| op_name := "bitmap.Select32R64/Rank128";
+     op_run := fun a => match a with
+       | [ws; p] => match as_zs ws, as_z p with
+           | Some ws, Some p =>
+               if c02_from_in_range ws p then
+                 match IndexSelect32R64 ws with
+                 | Some (sidx, ridx) =>
+                     c02_select_of_rank (Rank128 ws (IndexRank128 ws) p) (Select32R64 ws sidx ridx)
+                 | None => VPanic
+                 end
+               else VBad
+           | _, _ => VBad end
+       | _ => VBad end;
+     op_spec := fun_spec (fun a => match a with
+       | [ws; p] => match as_zs ws, as_z p with
+           | Some ws, Some p => c02_pair (spec_SelectFrom ws p) | _, _ => VBad end
+       | _ => VBad end) |}
+].
+
+(** * widened: select against NextOne (C13's function) *)
+
+(** (a, b) = select result; then NextOne(words, a+1, 64*len) unless a is the very last bit *)
+Definition c02_sel_next (ws : list Z) (sel : option (Z * Z)) : val :=
+  match sel with
+  | Some (a, b) =>
+      if a + 1 <? 64 * zlen ws then
+        match NextOne ws (a + 1) (64 * zlen ws) with
+        | Some nx => VL [VZ a; VZ b; VZ nx]
+        | None => VPanic
+        end
+      else VL [VZ a; VZ b; VZ (-1)]
+  | None => VPanic
+  end.
+
+Definition c02_sel_next_spec (ws : list Z) (i : Z) : val :=
+  let (a, b) := spec_Select ws i in
+  VL [VZ a; VZ b; VZ (if b <? 64 * zlen ws then b else -1)].
+
+Definition ops_C02_next : list opdef := [
+  {| op_name := "bitmap.Select32/NextOne";
+     op_run := fun a => match a with
+       | [ws; i] => match as_zs ws, as_z i with
+           | Some ws, Some i =>
+               if c02_in_range ws i then
+                 match IndexSelect32 ws with
+                 | Some sidx => c02_sel_next ws (Select32 ws sidx i)
+                 | None => VPanic
+                 end
+               else VBad
+           | _, _ => VBad end
+       | _ => VBad end;
+     op_spec := fun_spec (fun a => match a with
+       | [ws; i] => match as_zs ws, as_z i with
+           | Some ws, Some i => c02_sel_next_spec ws i | _, _ => VBad end
+       | _ => VBad end) |};
+  {| op_name := "bitmap.Select32R64/NextOne";
+     op_run := fun a => match a with
+       | [ws; i] => match as_zs ws, as_z i with
+           | Some ws, Some i =>
+               if c02_in_range ws i then
+                 match IndexSelect32R64 ws with
+                 | Some (sidx, ridx) => c02_sel_next ws (Select32R64 ws sidx ridx i)
+                 | None => VPanic
+                 end
+               else VBad
+           | _, _ => VBad end
+       | _ => VBad end;
+     op_spec := fun_spec (fun a => match a with
+       | [ws; i] => match as_zs ws, as_z i with
+           | Some ws, Some i => c02_sel_next_spec ws i | _, _ => VBad end
+       | _ => VBad end) |};
+  (* [NextOne(words, p, 64*len); a] where r = Rank64(words, IndexRank64(words,true), p) and, when r is below
+     the grand total rindex[len], (a, _) = Select32(words, IndexSelect32(words), r), else a = -1: both must be
+     the first 1-bit at or after p, or -1 when there is none *)
+  {| op_name := "bitmap.NextOne/Rank64";
+     op_run := fun a => match a with
+       | [ws; p] => match as_zs ws, as_z p with
+           | Some ws, Some p =>
+               if (0 <=? p) && (p <? 64 * zlen ws) then
+                 let ridx := IndexRank64 ws true in
+                 match NextOne ws p (64 * zlen ws), Rank64 ws ridx p, nthZ ridx (zlen ws) with
+                 | Some nx, Some (r, _), Some total =>
+                     if r <? total then
+                       match IndexSelect32 ws with
+                       | Some sidx => match Select32 ws sidx r with
+                                      | Some (x, _) => VL [VZ nx; VZ x]
+                                      | None => VPanic end
+                       | None => VPanic
+                       end
+                     else VL [VZ nx; VZ (-1)]
+                 | _, _, _ => VPanic
+                 end
+               else VBad
+           | _, _ => VBad end
+       | _ => VBad end;
+     op_spec := fun_spec (fun a => match a with
+       | [ws; p] => match as_zs ws, as_z p with
+           | Some ws, Some p =>
+               let v := if has_one_from ws p then fst (spec_SelectFrom ws p) else -1 in
+               VL [VZ v; VZ v]
+           | _, _ => VBad end
+       | _ => VBad end) |}
+].
+
+(** * widened: select against ToArray (toarray.go; model in Model/BitmapOf.v): one case = the whole
+      bitmap, [ToArray(words); Select(i) for every i < len(ToArray(words))] *)
+Fixpoint c02_all_selects (sel : Z -> option (Z * Z)) (is : list nat) : option (list val) :=
+  match is with
+  | [] => Some []
+  | i :: t => match sel (Z.of_nat i), c02_all_selects sel t with
+              | Some p, Some r => Some (c02_pair p :: r)
+              | _, _ => None
+              end
+  end.
+
+Definition c02_sweep_spec (ws : list Z) : val :=
+  let os := all_ones ws in
+  VL [vzs os; VL (map (fun i => c02_pair (spec_Select ws (Z.of_nat i))) (seq 0 (List.length os)))].
+
+Definition ops_C02_toarray : list opdef := [
+  {| op_name := "bitmap.Select32/ToArray";
+     op_run := fun a => match a with
+       | [ws] => match as_zs ws with
+           | Some ws =>
+               match ToArray ws, IndexSelect32 ws with
+               | Some ta, Some sidx =>
+                   match c02_all_selects (Select32 ws sidx) (seq 0 (List.length ta)) with
+                   | Some r => VL [vzs ta; VL r]
+                   | None => VPanic
+                   end
+               | _, _ => VPanic
+               end
+           | None => VBad end
+       | _ => VBad end;
+     op_spec := fun_spec (fun a => match a with
+       | [ws] => match as_zs ws with Some ws => c02_sweep_spec ws | None => VBad end
+       | _ => VBad end) |};
+  {| op_name := "bitmap.Select32R64/ToArray";
+     op_run := fun a => match a with
+       | [ws] => match as_zs ws with
+           | Some ws =>
+               match ToArray ws, IndexSelect32R64 ws with
+               | Some ta, Some (sidx, ridx) =>
+                   match c02_all_selects (Select32R64 ws sidx ridx) (seq 0 (List.length ta)) with
+                   | Some r => VL [vzs ta; VL r]
+                   | None => VPanic
+                   end
+               | _, _ => VPanic
+               end
+           | None => VBad end
+       | _ => VBad end;
+     op_spec := fun_spec (fun a => match a with
+       | [ws] => match as_zs ws with Some ws => c02_sweep_spec ws | None => VBad end
+       | _ => VBad end) |}
+].
+
+(** * widened: select against PrevOne (C13's function): [a; PrevOne(words, 0, a)] with (a, _) = select(i);
+      PrevOne is not called when a = 0 (its range would be empty) *)
+Definition c02_sel_prev (ws : list Z) (sel : option (Z * Z)) : val :=
+  match sel with
+  | Some (a, _) =>
+      if 1 <=? a then
+        match PrevOne ws 0 a with
+        | Some pv => VL [VZ a; VZ pv]
+        | None => VPanic
+        end
+      else VL [VZ a; VZ (-1)]
+  | None => VPanic
+  end.
+
+Definition c02_sel_prev_spec (ws : list Z) (i : Z) : val :=
+  VL [VZ (fst (spec_Select ws i)); VZ (if 0 <? i then fst (spec_Select ws (i - 1)) else -1)].
+
+Definition ops_C02_prev : list opdef := [
+  {| op_name := "bitmap.PrevOne/Select32";
+     op_run := fun a => match a with
+       | [ws; i] => match as_zs ws, as_z i with
+           | Some ws, Some i =>
+               if c02_in_range ws i then
+                 match IndexSelect32 ws with
+                 | Some sidx => c02_sel_prev ws (Select32 ws sidx i)
+                 | None => VPanic
+                 end
+               else VBad
+           | _, _ => VBad end
+       | _ => VBad end;
+     op_spec := fun_spec (fun a => match a with
+       | [ws; i] => match as_zs ws, as_z i with
+           | Some ws, Some i => c02_sel_prev_spec ws i | _, _ => VBad end
+       | _ => VBad end) |};
+  {| op_name := "bitmap.PrevOne/Select32R64";
+     op_run := fun a => match a with
+       | [ws; i] => match as_zs ws, as_z i with
+           | Some ws, Some i =>
+               if c02_in_range ws i then
+                 match IndexSelect32R64 ws with
+                 | Some (sidx, ridx) => c02_sel_prev ws (Select32R64 ws sidx ridx i)
+                 | None => VPanic
+                 end
+               else VBad
+           | _, _ => VBad end
+       | _ => VBad end;
+     op_spec := fun_spec (fun a => match a with
+       | [ws; i] => match as_zs ws, as_z i with
+           | Some ws, Some i => c02_sel_prev_spec ws i | _, _ => VBad end
+       | _ => VBad end) |}
+].
+
+Definition ops_C02 : list opdef :=
+  ops_C02_base ++ ops_C02_widen ++ ops_C02_next ++ ops_C02_toarray ++ ops_C02_prev.
